@@ -2,6 +2,7 @@
 # run every claimed check (quick by default) on the current tree and validate the evidence files
 cd "$(dirname "$0")/.."
 tier=${1:-quick}
+python3 tools/mkmanifest.py >/dev/null
 ids=$(python3 -c "import json;print(' '.join(c['property_id'] for c in json.load(open('MANIFEST.json'))['checks']))")
 fail=0
 for p in $ids; do
